@@ -26,11 +26,15 @@ import (
 	"bytes"
 	"fmt"
 	"os"
+	"runtime/debug"
+	"runtime/pprof"
 	"sort"
 	"strings"
 	"sync"
 	"sync/atomic"
+	"time"
 
+	"github.com/elastos/Elastos.ELA/core/checkpoint"
 	"github.com/elastos/Elastos.ELA/core/types"
 	crstate "github.com/elastos/Elastos.ELA/cr/state"
 
@@ -40,38 +44,60 @@ import (
 )
 
 type scenario struct {
-	name     string
-	warm     []string
-	alphabet []string
+	name       string
+	warm       []string
+	alphabet   []string
+	extra      []string // thorough tier only
+	warmBlocks int      // number of blocks the warm-up produces (set by validateWarmups)
 }
 
+// Each scenario has a core alphabet (quick tier) and extra operations added in the thorough tier.
 var scenarios = []*scenario{
 	{
 		// heights 1..5 done: three candidates registered (pending), CR assets funded.
 		// free blocks cross candidate activation (6), the end of the first voting period and the
 		// first election (8).
-		name: "first-election",
-		warm: []string{"reg:c1+reg:c2+reg:c3", "fund", "e3"},
-		alphabet: []string{"e", "e2", "reg:c4", "upd:c1", "unreg:c3", "vote:v1:a", "vote:v1:b", "vote:v2:d",
-			"unvote:v1", "approp"},
+		name:     "first-election",
+		warm:     []string{"reg:c1+reg:c2+reg:c3", "fund", "e3"},
+		alphabet: []string{"e", "reg:c4", "upd:c1", "unreg:c3", "vote:v1:a", "vote:v1:b", "unvote:v1", "approp"},
+		extra:    []string{"e2", "e3", "ret:c3", "vote:v2:d", "upd:c3", "unreg:c1"},
 	},
 	{
 		// committee {c1,c2} elected at 8, appropriation done at 9, proposal A registered at 10:
 		// free blocks cross the end of the council review (12) and of the public review (14).
-		name: "proposal-review",
-		warm: []string{"reg:c1+reg:c2+reg:c3", "fund", "e4", "vote:v1:a", "e", "approp", "prop:A:c1"},
-		alphabet: []string{"e", "e2", "rev:c1:A:a", "rev:c2:A:a", "rev:c2:A:r", "rev:c1:A:s", "rev2:A:a",
-			"prop:B:c2", "elip:C:c1", "sg:D:c2", "rej:vr:A:big", "rej:vr:A:small", "imp:vi:c2:small", "imp:vi:c2:big"},
+		name:     "proposal-review",
+		warm:     []string{"reg:c1+reg:c2+reg:c3", "fund", "e4", "vote:v1:a", "e", "approp", "prop:A:c1"},
+		alphabet: []string{"e", "rev2:A:a", "rev:c2:A:r", "prop:B:c2", "sg:D:c2", "rej:vr:A:big", "imp:vi:c2:big", "elip:C:c1"},
+		extra:    []string{"e2", "rev:c1:A:a", "rev:c2:A:a", "rev:c1:A:s", "rej:vr:A:small", "imp:vi:c2:small"},
 	},
 	{
 		// proposal A voter-agreed at 14 (imprest withdrawable), B registered at 13:
-		// free blocks: tracking, withdrawals, close / change-owner proposals, impeachment.
+		// free blocks: tracking, withdrawal requests and payment, council review of B.
 		name: "proposal-execution",
 		warm: []string{"reg:c1+reg:c2+reg:c3", "fund", "e4", "vote:v1:a", "e", "approp", "prop:A:c1", "rev2:A:a", "e",
 			"prop:B:c2", "e"},
-		alphabet: []string{"e", "e2", "wd:A", "realwd", "trk:A:common", "trk:A:progress", "trk:A:rejected", "trk:A:terminated",
-			"trk:A:changeowner", "trk:A:finalized", "close:E:A:c1", "chown:E:A:c2", "rev2:B:a", "rev2:E:a", "rev:c1:B:r",
-			"imp:vi:c1:big", "rej:vr:B:big"},
+		alphabet: []string{"e", "wd:A", "realwd", "trk:A:progress", "trk:A:finalized", "trk:A:terminated", "trk:A:changeowner",
+			"rev2:B:a", "imp:vi:c1:big"},
+		extra: []string{"e2", "trk:A:common", "trk:A:rejected", "rev:c1:B:r", "rej:vr:B:big", "close:E:A:c1"},
+	},
+	{
+		// A voter-agreed; three special proposals already approved by the council and in public
+		// review: E closes A, F hands A to a new owner, D replaces the secretary-general. Free
+		// blocks cross the heights where they take effect (or are voted down).
+		name: "special-proposals",
+		warm: []string{"reg:c1+reg:c2+reg:c3", "fund", "e4", "vote:v1:a", "e", "approp", "prop:A:c1", "rev2:A:a", "e3",
+			"close:E:A:c1", "chown:F:A:c2+sg:D:c2", "rev2:E:a", "rev2:F:a+rev2:D:a"},
+		alphabet: []string{"e", "wd:A", "trk:A:progress", "trk:A:changeowner", "rej:vr:E:big", "rej:vr:F:big", "rej:vr:D:big",
+			"imp:vi:c2:big"},
+		extra: []string{"e2", "trk:A:terminated", "trk:A:finalized", "realwd"},
+	},
+	{
+		// first committee in office and funded; c3 lost the election and may take his deposit
+		// back, members may be impeached (which ends the term early) and then do the same.
+		name:     "deposit-return",
+		warm:     []string{"reg:c1+reg:c2+reg:c3", "fund", "e4", "vote:v1:a", "e", "approp"},
+		alphabet: []string{"e", "ret:c3", "imp:vi:c1:big", "imp:vi:c2:big", "ret:c1", "prop:A:c2", "reg:c3"},
+		extra:    []string{"e2", "imp:vi:c1:small", "rev2:A:a", "vote:v2:d"},
 	},
 	{
 		// the first committee's duty is about to end (second voting period 20..27, change at 28):
@@ -79,8 +105,8 @@ var scenarios = []*scenario{
 		name: "re-election",
 		warm: []string{"reg:c1+reg:c2+reg:c3", "fund", "e4", "vote:v1:a", "e", "approp", "prop:A:c1", "rev2:A:a", "e3",
 			"wd:A", "e3", "prop:B:c2"},
-		alphabet: []string{"e", "e2", "e5", "reg:c3", "reg:c4", "reg:c1", "upd:c3", "unreg:c3", "vote:v1:b", "vote:v2:c",
-			"vote:v1:a", "unvote:v1", "rev2:B:a", "trk:A:progress", "wd:A", "imp:vi:c1:big", "realwd"},
+		alphabet: []string{"e", "e5", "reg:c4", "reg:c3", "unreg:c3", "vote:v1:b", "vote:v2:c", "rev2:B:a", "imp:vi:c1:big"},
+		extra:    []string{"e2", "reg:c1", "upd:c3", "vote:v1:a", "unvote:v1", "trk:A:progress", "wd:A", "realwd"},
 	},
 }
 
@@ -94,7 +120,7 @@ var (
 	kindsSeen     evid.Distinct
 	eventsSeen    evid.Distinct
 	passed        sync.Map // history key -> true: oracle already evaluated and clean
-	failedEvals   sync.Map // history key -> *int32: oracle evaluations of a failing history
+	failedEvals   sync.Map // history key -> *failRec: oracle evaluations of a failing history
 	replayLen     int      // --replay: evaluate the oracle only on the complete history
 	lossyFields   evid.Distinct
 	run           *evid.Run
@@ -105,11 +131,13 @@ type inst struct {
 	sc   *scenario
 	w    *crkit.World
 	hist []string
-	// D[i] = canonical state after i blocks, built directly on w (never rolled back).
+	// D[i] = canonical state after i blocks, built directly on w (never rolled back); only kept
+	// for the heights the oracle can look at (nil below).
 	D [][]string
+	// CP[i] = serialised checkpoint taken from w after i blocks (Checkpoint.Snapshot -> Serialize)
+	CP [][]byte
 	// opOf[i] = operation that produced block i+1
 	opOf []string
-	warm int // number of warm-up blocks
 	err  string
 }
 
@@ -117,7 +145,8 @@ func histKey(sc *scenario, hist []string) string { return sc.name + "|" + string
 
 func newInst(sc *scenario) *inst {
 	in := &inst{sc: sc, w: crkit.NewWorld(crkit.Params())}
-	in.D = append(in.D, crkit.Canon(in.w.C))
+	in.D = append(in.D, nil)
+	in.CP = append(in.CP, nil)
 	in.w.Skip = func(string) bool { return true } // the warm-up was validated in main
 	for _, op := range sc.warm {
 		blocks, err := in.w.Offer(op)
@@ -127,16 +156,49 @@ func newInst(sc *scenario) *inst {
 		in.applyBlocks(op, blocks)
 	}
 	in.w.Skip = nil
-	in.warm = len(in.D) - 1
 	return in
+}
+
+// low is the lowest height rollbacks may target for a history whose warm-up has `warm` blocks.
+func low(warm int) int {
+	lo := 1
+	if backWindow > 0 && warm-backWindow > lo {
+		lo = warm - backWindow
+	}
+	return lo
 }
 
 func (in *inst) applyBlocks(op string, blocks []*types.Block) {
 	for _, b := range blocks {
 		in.w.Apply([]*types.Block{b})
-		in.D = append(in.D, crkit.Canon(in.w.C))
 		in.opOf = append(in.opOf, op)
+		h := len(in.D)
+		if h < low(in.sc.warmBlocks) {
+			in.D = append(in.D, nil)
+			in.CP = append(in.CP, nil)
+			continue
+		}
+		in.D = append(in.D, crkit.Canon(in.w.C))
+		in.CP = append(in.CP, snapshotBytes(in.w.Manager(), uint32(h)))
 	}
+}
+
+// snapshotBytes takes the committee checkpoint the way the checkpoint manager saves it
+// (registered Checkpoint.Snapshot(), then Serialize); nil if the repository code fails.
+func snapshotBytes(m *checkpoint.Manager, height uint32) []byte {
+	cp, ok := m.GetCheckpoint("cp_cr", height)
+	if !ok || cp == nil {
+		evid.Fatalf("C22: no registered CR checkpoint")
+	}
+	snap := cp.Snapshot()
+	if snap == nil {
+		return nil
+	}
+	buf := new(bytes.Buffer)
+	if err := snap.Serialize(buf); err != nil {
+		return nil
+	}
+	return buf.Bytes()
 }
 
 func (in *inst) Ops() []string {
@@ -172,31 +234,80 @@ func (in *inst) Apply(op string) *mc.Fail {
 	if done {
 		return nil
 	}
-	kindsSeen.Add(crkit.Kind(op))
-	distinctState.Add(strings.Join(in.D[len(in.D)-1], "\n"))
-	for i := before; i < len(in.D)-1; i++ {
-		for _, e := range events(in.D[i], in.D[i+1]) {
-			eventsSeen.Add(e)
-		}
-	}
 	if replayLen > 0 && len(in.hist) != replayLen {
+		in.oracle(false) // fills diffsOf for the next step; nothing is reported for a prefix
+		return nil
+	}
+	if run.Expired() || time.Now().After(scenarioDeadline) {
+		// time budget (shared evenly between the scenarios) used up: finish the level without
+		// judging; the result is reported as not exhaustive
+		atomic.StoreInt32(&expired, 1)
 		return nil
 	}
 	// A failing history is reported by its first evaluation and by the two confirmation replays
 	// mc.Explore makes right after it; later replays of it as a prefix of longer histories go
 	// through (failing histories are expanded: on the unchanged tree known findings would
 	// otherwise cut off most of the space).
-	cnt, _ := failedEvals.LoadOrStore(key, new(int32))
-	if atomic.LoadInt32(cnt.(*int32)) >= 3 {
+	cv, _ := failedEvals.LoadOrStore(key, &failRec{})
+	rec := cv.(*failRec)
+	if rec.n >= 3 {
 		return nil
 	}
-	if f := in.oracle(); f != nil {
-		atomic.AddInt32(cnt.(*int32), 1)
-		return f
+	if rec.n > 0 && rec.memo != nil {
+		// every signature of this history was already confirmed (by replays) on an earlier
+		// history: the confirmation replays of this one return the recorded result.
+		rec.n++
+		return rec.memo
 	}
-	passed.Store(key, true)
-	return nil
+	first := rec.n == 0
+	if first { // counters count histories, not evaluations
+		kindsSeen.Add(crkit.Kind(op))
+		distinctState.Add(strings.Join(in.D[len(in.D)-1], "\n"))
+		for i := before; i < len(in.D)-1; i++ {
+			for _, e := range events(in.D[i], in.D[i+1]) {
+				eventsSeen.Add(e)
+			}
+		}
+	}
+	f, sigs := in.oracle(first)
+	if f == nil {
+		passed.Store(key, true)
+		return nil
+	}
+	rec.n++
+	allConfirmed := true
+	for _, sg := range sigs {
+		if _, ok := confirmedSigs.Load(sg); !ok {
+			allConfirmed = false
+		}
+	}
+	if allConfirmed {
+		rec.memo = f
+	}
+	if rec.n == 3 {
+		for _, sg := range sigs {
+			confirmedSigs.Store(sg, true)
+		}
+	}
+	return f
 }
+
+// failRec tracks the evaluations of one failing history (touched by one goroutine at a time: a
+// history is reached, confirmed and later replayed as a prefix strictly in that order).
+type failRec struct {
+	n    int
+	memo *mc.Fail
+}
+
+var confirmedSigs sync.Map
+
+var expired int32
+
+// scenarioDeadline: end of the running scenario's share of the run's time budget.
+var scenarioDeadline time.Time
+
+// diffsOf: history key -> set of "clause|field|k" differences its oracle evaluation found.
+var diffsOf sync.Map
 
 // events names the boundary crossings between two consecutive direct-build states (used for
 // non-vacuity counters and for signatures).
@@ -241,33 +352,124 @@ func events(a, b []string) []string {
 	return ev
 }
 
-// describe the block of height h (1-based) for signatures: transaction kind plus the boundary
-// events the direct build crossed in that block.
-func (in *inst) blockClass(h int) string {
-	k := crkit.Kind(in.opOf[h-1])
-	ev := events(in.D[h-1], in.D[h])
-	if len(ev) > 0 {
-		k += "{" + strings.Join(ev, ",") + "}"
+// classesOf names the boundaries block h (1-based) crossed in the direct build, as coarse classes.
+func (in *inst) classesOf(h int, structuralOnly bool) []string {
+	if in.D[h-1] == nil || in.D[h] == nil {
+		return nil
 	}
-	return k
+	cl := map[string]bool{}
+	for _, e := range events(in.D[h-1], in.D[h]) {
+		switch {
+		case e == "committee-changed":
+			cl["election"] = true
+		case e == "voting-start-moved":
+			cl["voting-start"] = true
+		case e == "election-period-toggled":
+			cl["election-period"] = true
+		case e == "need-appropriation-toggled":
+		case structuralOnly:
+		case strings.Contains(e, "Proposals[].Status"):
+			cl["proposal-status"] = true
+		case strings.Contains(e, "Candidates[].State"):
+			cl["candidate-state"] = true
+		case strings.Contains(e, "MemberState"):
+			cl["member-state"] = true
+		}
+	}
+	var l []string
+	for c := range cl {
+		l = append(l, c)
+	}
+	sort.Strings(l)
+	return l
 }
 
+// blockClass describes block h for signatures: the transaction kind, or for a coinbase-only
+// block "e" plus the boundaries it crosses.
+func (in *inst) blockClass(h int) string {
+	k := crkit.Kind(in.opOf[h-1])
+	if k != "e" {
+		return k
+	}
+	return in.emptyClass(h)
+}
+
+func (in *inst) emptyClass(h int) string {
+	if l := in.classesOf(h, false); len(l) > 0 {
+		return "e{" + strings.Join(l, ",") + "}"
+	}
+	return "e"
+}
+
+// undoneClass attributes a difference in field tf seen after rolling back the single block k+1:
+// if the block carries transactions and also crosses a boundary, the block is replayed without
+// its transactions; when the difference is still there the boundary is named, not the transaction.
+func (in *inst) undoneClass(k, n int, tf string) string {
+	kind := crkit.Kind(in.opOf[k])
+	if kind == "e" || n != k+1 || len(in.classesOf(k+1, false)) == 0 {
+		return in.blockClass(k + 1)
+	}
+	c3, ckp := in.w.NewCommittee()
+	defer ckp.Close()
+	for _, b := range in.w.Blocks[:k] {
+		in.w.ProcessOn(c3, b)
+	}
+	orig := in.w.Blocks[k]
+	in.w.ProcessOn(c3, &types.Block{Header: orig.Header, Transactions: orig.Transactions[:1]})
+	if c3.RollbackTo(uint32(k)) != nil {
+		return kind
+	}
+	if d := crkit.Compare(in.D[k], crkit.Canon(c3)); d != nil {
+		for _, f := range d.Fields {
+			if topField(f) == tf {
+				return in.emptyClass(k + 1)
+			}
+		}
+	}
+	return kind
+}
+
+// span names the structural boundaries (election, voting start, end of the election period:
+// the places where the committee swaps whole maps) crossed by blocks from..to.
+func (in *inst) span(from, to int) string {
+	cl := map[string]bool{}
+	for h := from; h <= to; h++ {
+		for _, c := range in.classesOf(h, true) {
+			cl[c] = true
+		}
+	}
+	if len(cl) == 0 {
+		return "-"
+	}
+	var l []string
+	for c := range cl {
+		l = append(l, c)
+	}
+	sort.Strings(l)
+	return strings.Join(l, ",")
+}
+
+// topField turns a key-free field path into the signature component: indices dropped, at most
+// three components ("StateKeyFrame.DepositInfo[].Penalty" -> "StateKeyFrame.DepositInfo.Penalty",
+// "KeyFrame.Members[].Info.NickName" -> "KeyFrame.Members.Info").
 func topField(f string) string {
-	// "StateKeyFrame.DepositInfo[].Penalty" -> "StateKeyFrame.DepositInfo[].Penalty" is already
-	// key-free; keep at most three components so that one defect maps to one signature.
-	parts := strings.Split(f, ".")
+	parts := strings.Split(strings.ReplaceAll(f, "[]", ""), ".")
 	if len(parts) > 3 {
 		parts = parts[:3]
 	}
 	return strings.Join(parts, ".")
 }
 
-func (in *inst) oracle() *mc.Fail {
-	n := len(in.D) - 1
-	lo := 1
-	if backWindow > 0 && in.warm-backWindow > lo {
-		lo = in.warm - backWindow
+// oracle judges the current history; first is true for the first evaluation of the history (the
+// only one that counts comparisons and reports the additional signatures).
+func (in *inst) oracle(first bool) (*mc.Fail, []string) {
+	count := func(c *int64) {
+		if first {
+			atomic.AddInt64(c, 1)
+		}
 	}
+	n := len(in.D) - 1
+	lo := low(in.sc.warmBlocks)
 	type finding struct {
 		sig, what string
 	}
@@ -279,136 +481,218 @@ func (in *inst) oracle() *mc.Fail {
 			found = append(found, finding{sig, what})
 		}
 	}
+	// what a checkpoint of the uninterrupted committee contains after n blocks
+	wantCP := canonOfCheckpoint(in.CP[n])
+	if wantCP == nil {
+		add("C22|checkpoint-snapshot-failed|after="+in.blockClass(n), fmt.Sprintf("Checkpoint.Snapshot()/Serialize failed after %d blocks", n))
+	} else if d := crkit.Compare(in.D[n], wantCP); d != nil {
+		// fields the checkpoint does not carry: C23(a)'s subject, recorded only
+		for _, f := range d.Fields {
+			lossyFields.Add(f)
+		}
+	}
 	// descending k: the first rollback that shows a field difference is the shallowest one, so
 	// the block named in the signature is the oldest block that has to be undone for it.
+	// A difference (clause, field, k) that the parent history (this one without its last
+	// operation) already showed for the same k is the same defect seen again from further away:
+	// it is not reported again, so every report carries the shortest undone span.
+	inherited := map[string]bool{}
+	if len(in.hist) >= 1 {
+		if v, ok := diffsOf.Load(histKey(in.sc, in.hist[:len(in.hist)-1])); ok {
+			inherited = v.(map[string]bool)
+		}
+	}
+	mine := map[string]bool{}
+	defer diffsOf.Store(histKey(in.sc, in.hist), mine)
+	fresh := func(clause, field string, k int) bool {
+		id := fmt.Sprintf("%s|%s|%d", clause, field, k)
+		mine[id] = true
+		return !inherited[id]
+	}
 	fieldSeen := map[string]bool{}
-	for k := n - 1; k >= lo; k-- {
+	var early *mc.Fail
+	var earlySigs []string
+	perK := func(k int) {
+		phase := "build"
 		c2, ckp := in.w.NewCommittee()
+		closed := false
+		closeCkp := func() {
+			if !closed {
+				closed = true
+				ckp.Close()
+			}
+		}
+		defer closeCkp()
+		// a panic of the repository code while rolling back / re-processing / restoring is a
+		// violation of its own (the node would die in the middle of a reorganisation)
+		defer func() {
+			if e := recover(); e != nil {
+				site := evid.PanicSite(debug.Stack())
+				add(fmt.Sprintf("C22|panic|%s|during=%s", site, phase),
+					fmt.Sprintf("after %d blocks, rollback target %d, phase %s: panic: %v", n, k, phase, e))
+			}
+		}()
 		for _, b := range in.w.Blocks {
 			in.w.ProcessOn(c2, b)
 		}
-		if d := crkit.Compare(in.D[n], crkit.Canon(c2)); d != nil {
-			ckp.Close()
-			return mc.Failf("C22|nondeterministic-build|field="+topField(d.Fields[0]),
-				"two committees fed the same %d blocks differ: %v", n, d.Lines)
+		if d := compareOnce(k == n-1, in.D[n], c2); d != nil {
+			sg := "C22|nondeterministic-build|field=" + topField(d.Fields[0])
+			early, earlySigs = mc.Failf(sg, "two committees fed the same %d blocks differ: %v", n, d.Lines), []string{sg}
+			return
 		}
+		phase = "rollback"
 		err := c2.RollbackTo(uint32(k))
-		atomic.AddInt64(&rollbackCmp, 1)
+		count(&rollbackCmp)
+		rbClean := err == nil
 		if err != nil {
 			add("C22|rollback-error|undone="+in.blockClass(k+1), fmt.Sprintf("RollbackTo(%d) from %d failed: %v", k, n, err))
 		}
 		if d := crkit.Compare(in.D[k], crkit.Canon(c2)); d != nil {
+			rbClean = false
 			for _, f := range d.Fields {
 				tf := topField(f)
-				if fieldSeen["rb|"+tf] {
+				if !fresh("rb", tf, k) || fieldSeen["rb|"+tf] {
 					continue
 				}
 				fieldSeen["rb|"+tf] = true
-				add(fmt.Sprintf("C22|rollback-differs|field=%s|undone=%s", tf, in.blockClass(k+1)),
+				add(fmt.Sprintf("C22|rollback-differs|field=%s|undone=%s|span=%s", tf, in.undoneClass(k, n, tf), in.span(k+2, n)),
 					fmt.Sprintf("after %d blocks, RollbackTo(%d) leaves a state different from the one built directly from the first %d blocks: %v", n, k, k, d.Lines))
 			}
 		}
-		for _, b := range in.w.Blocks[k:] {
-			in.w.ProcessOn(c2, b)
-		}
-		atomic.AddInt64(&reapplyCmp, 1)
-		if d := crkit.Compare(in.D[n], crkit.Canon(c2)); d != nil {
-			for _, f := range d.Fields {
-				tf := topField(f)
-				if fieldSeen["re|"+tf] {
-					continue
+		// re-processing is only judged from a correct base (a wrong rollback is already reported)
+		if rbClean {
+			phase = "reapply"
+			for _, b := range in.w.Blocks[k:] {
+				in.w.ProcessOn(c2, b)
+			}
+			count(&reapplyCmp)
+			if d := crkit.Compare(in.D[n], crkit.Canon(c2)); d != nil {
+				for _, f := range d.Fields {
+					tf := topField(f)
+					if !fresh("re", tf, k) || fieldSeen["re|"+tf] {
+						continue
+					}
+					fieldSeen["re|"+tf] = true
+					add(fmt.Sprintf("C22|reapply-differs|field=%s|undone=%s|span=%s", tf, in.blockClass(k+1), in.span(k+2, n)),
+						fmt.Sprintf("after %d blocks, RollbackTo(%d) and re-processing blocks %d..%d gives a state different from the uninterrupted one: %v", n, k, k+1, n, d.Lines))
 				}
-				fieldSeen["re|"+tf] = true
-				add(fmt.Sprintf("C22|reapply-differs|field=%s|undone=%s", tf, in.blockClass(k+1)),
-					fmt.Sprintf("after %d blocks, RollbackTo(%d) and re-processing blocks %d..%d gives a state different from the uninterrupted one: %v", n, k, k+1, n, d.Lines))
 			}
 		}
-		ckp.Close()
+		closeCkp()
 
 		// C23(b), CR half: checkpoint after k blocks, restore, feed the rest.
-		if f := in.restoreAt(k, n, fieldSeen, add); f != nil {
-			return f
+		if wantCP != nil && k >= in.sc.warmBlocks-1 {
+			phase = "restore-from-checkpoint"
+			count(&restoreCmp)
+			in.restoreAt(k, n, wantCP, fieldSeen, fresh, add)
 		}
 	}
+	for k := n - 1; k >= lo && early == nil; k-- {
+		perK(k)
+	}
+	if early != nil {
+		return early, earlySigs
+	}
 	if len(found) == 0 {
-		return nil
+		return nil, nil
 	}
 	sort.Slice(found, func(i, j int) bool { return found[i].sig < found[j].sig })
 	hist := append([]string{}, in.hist...)
-	for _, f := range found[1:] {
-		run.Violate(f.sig, f.what, map[string]interface{}{"system": in.sc.name, "history": hist})
+	var sigs []string
+	for i, f := range found {
+		sigs = append(sigs, f.sig)
+		if i > 0 && first {
+			run.Violate(f.sig, f.what, map[string]interface{}{"system": in.sc.name, "history": hist})
+		}
 	}
-	return &mc.Fail{Signature: found[0].sig, What: found[0].what}
+	return &mc.Fail{Signature: found[0].sig, What: found[0].what}, sigs
 }
 
-func (in *inst) restoreAt(k, n int, fieldSeen map[string]bool, add func(sig, what string)) *mc.Fail {
-	src, ckpS := in.w.NewCommittee()
-	defer ckpS.Close()
-	for _, b := range in.w.Blocks[:k] {
-		in.w.ProcessOn(src, b)
-	}
-	cpS, ok := ckpS.GetCheckpoint("cp_cr", uint32(k))
-	if !ok || cpS == nil {
-		evid.Fatalf("C22: no registered CR checkpoint")
-	}
-	snap := cpS.Snapshot()
-	if snap == nil {
-		add("C22|checkpoint-snapshot-failed|after="+in.blockClass(k), fmt.Sprintf("Checkpoint.Snapshot() failed (serialise/deserialise error) after %d blocks", k))
+func compareOnce(do bool, want []string, c *crstate.Committee) *crkit.Diff {
+	if !do {
 		return nil
 	}
-	buf := new(bytes.Buffer)
-	if err := snap.Serialize(buf); err != nil {
-		add("C22|checkpoint-serialize-failed|after="+in.blockClass(k), fmt.Sprintf("Serialize after %d blocks: %v", k, err))
+	return crkit.Compare(want, crkit.Canon(c))
+}
+
+// dropBenign removes the CRInfo.Signature lines (see restoreAt).
+func dropBenign(l []string) []string {
+	o := make([]string, 0, len(l))
+	for _, s := range l {
+		if i := strings.Index(s, "="); i > 0 && strings.HasSuffix(s[:i], ".Info.Signature") {
+			continue
+		}
+		o = append(o, s)
+	}
+	return o
+}
+
+// canonOfCheckpoint renders a serialised checkpoint (nil if it cannot be read back).
+func canonOfCheckpoint(b []byte) []string {
+	if b == nil {
 		return nil
+	}
+	cp := &crstate.Checkpoint{}
+	if err := cp.Deserialize(bytes.NewReader(b)); err != nil {
+		return nil
+	}
+	return crkit.CanonFrames(cp.KeyFrame, cp.StateKeyFrame, cp.ProposalKeyFrame)
+}
+
+// restoreAt: the checkpoint taken after k blocks is loaded into a fresh committee the way
+// checkpoint.Manager.Restore does it (registered Checkpoint.Deserialize, then OnInit), the
+// committee is fed blocks k+1..n, and what a checkpoint of it would now contain is compared with
+// what a checkpoint of the uninterrupted committee contains.
+func (in *inst) restoreAt(k, n int, wantCP []string, fieldSeen map[string]bool, fresh func(clause, field string, k int) bool, add func(sig, what string)) {
+	if in.CP[k] == nil {
+		add("C22|checkpoint-snapshot-failed|after="+in.blockClass(k), fmt.Sprintf("Checkpoint.Snapshot()/Serialize failed after %d blocks", k))
+		return
 	}
 	dst, ckpD := in.w.NewCommittee()
 	defer ckpD.Close()
 	cpD, _ := ckpD.GetCheckpoint("cp_cr", 0)
-	if err := cpD.Deserialize(bytes.NewReader(buf.Bytes())); err != nil {
+	if err := cpD.Deserialize(bytes.NewReader(in.CP[k])); err != nil {
 		add("C22|checkpoint-deserialize-failed|after="+in.blockClass(k), fmt.Sprintf("Deserialize of the checkpoint taken after %d blocks: %v", k, err))
-		return nil
+		return
 	}
 	cpD.OnInit()
-	atomic.AddInt64(&restoreCmp, 1)
-	// Fields the checkpoint does not carry are C23(a)'s subject (field-by-field round trip), not
-	// this clause's: they are recorded in the evidence and left out of the comparison below.
-	lossy := map[string]bool{}
-	if d := crkit.Compare(in.D[k], crkit.Canon(dst)); d != nil {
-		for _, f := range d.Fields {
-			lossy[f] = true
-			lossyFields.Add(f)
-		}
-	}
 	for _, b := range in.w.Blocks[k:] {
 		in.w.ProcessOn(dst, b)
 	}
-	keep := func(l []string) []string {
-		if len(lossy) == 0 {
-			return l
-		}
-		var o []string
-		for _, s := range l {
-			if !lossy[crkit.FieldOf(s)] {
-				o = append(o, s)
-			}
-		}
-		return o
-	}
-	if d := crkit.Compare(keep(in.D[n]), keep(crkit.Canon(dst))); d != nil {
+	// The restored committee is compared with the uninterrupted one on the live state, except
+	// for the one field family the checkpoint does not carry and nothing reads after
+	// registration: CRInfo.Signature of candidates / members (written with SerializeUnsigned).
+	want, got := dropBenign(in.D[n]), dropBenign(crkit.Canon(dst))
+	if d := crkit.Compare(want, got); d != nil {
 		for _, f := range d.Fields {
-			tf := topField(f)
-			if fieldSeen["rs|"+tf] {
+			// what is lost on restore does not depend on the next block: frame and field only
+			parts := strings.Split(topField(f), ".")
+			if len(parts) > 2 {
+				parts = parts[:2]
+			}
+			tf := strings.Join(parts, ".")
+			if !fresh("rs", tf, k) || fieldSeen["rs|"+tf] {
 				continue
 			}
 			fieldSeen["rs|"+tf] = true
-			add(fmt.Sprintf("C22|c23b-restore-then-continue-differs|field=%s|next=%s", tf, in.blockClass(k+1)),
-				fmt.Sprintf("restored from the checkpoint after %d blocks and fed blocks %d..%d: state differs from the uninterrupted run: %v", k, k+1, n, d.Lines))
+			add(fmt.Sprintf("C22|c23b-restore-then-continue-differs|field=%s", tf),
+				fmt.Sprintf("restored from the checkpoint after %d blocks and fed blocks %d..%d: state differs from the uninterrupted run's: %v", k, k+1, n, d.Lines))
 		}
 	}
-	return nil
 }
 
-var _ = crstate.Registered
+// judgeRoot evaluates the oracle on the warm-up alone (the history with an empty free part): its
+// differences are findings of their own and the base that first-level histories inherit from.
+func judgeRoot(sc *scenario, report bool) {
+	in := newInst(sc)
+	defer in.Close()
+	f, _ := in.oracle(report)
+	if f != nil && report {
+		run.Violate(f.Signature, f.What, map[string]interface{}{"system": sc.name, "history": []string{}})
+	}
+}
+
+var stopProfile func()
 
 func validateWarmups() {
 	for _, sc := range scenarios {
@@ -420,6 +704,7 @@ func validateWarmups() {
 			}
 			w.Apply(blocks)
 		}
+		sc.warmBlocks = int(w.Height)
 		if os.Getenv("VERIF_TRACE") != "" {
 			fmt.Printf("scenario %s: warm-up ends at height %d\n", sc.name, w.Height)
 			for _, l := range crkit.Canon(w.C) {
@@ -433,11 +718,22 @@ func validateWarmups() {
 func main() {
 	r := evid.Start("C22", "model_checking")
 	run = r
+	if pf := os.Getenv("VERIF_CPUPROFILE"); pf != "" { // development aid
+		f, _ := os.Create(pf)
+		pprof.StartCPUProfile(f)
+		defer pprof.StopCPUProfile()
+		stopProfile = pprof.StopCPUProfile
+	}
 	scratch := crkit.Init()
 	defer os.RemoveAll(scratch)
+	if r.Thorough() {
+		for _, sc := range scenarios {
+			sc.alphabet = append(sc.alphabet, sc.extra...)
+		}
+	}
 	validateWarmups()
-	depth := r.Pick(4, 6)
-	backWindow = r.Pick(4, 0)
+	depth := r.Pick(4, 5)
+	backWindow = r.Pick(3, 0)
 	if d := os.Getenv("VERIF_C22_DEPTH"); d != "" { // development aid
 		fmt.Sscan(d, &depth)
 	}
@@ -461,6 +757,7 @@ func main() {
 		for _, sc := range scenarios {
 			if sc.name == a.System {
 				sc := sc
+				judgeRoot(sc, len(a.History) == 0)
 				sp := &mc.Spec{Name: sc.name, New: func() mc.Instance { return newInst(sc) }, MaxDepth: len(a.History)}
 				mc.Replay(r, sp, a.History)
 			}
@@ -471,10 +768,25 @@ func main() {
 
 	total := &mc.Result{Exhaustive: true}
 	per := map[string]interface{}{}
-	for _, sc := range scenarios {
+	start := time.Now()
+	budget := time.Duration(r.Pick(1100, 10500)) * time.Second // evid's own budget less a margin
+	if b := os.Getenv("VERIF_BUDGET_S"); b != "" {
+		var n int
+		if _, err := fmt.Sscan(b, &n); err == nil && n > 0 {
+			budget = time.Duration(n) * time.Second * 9 / 10
+		}
+	}
+	for si, sc := range scenarios {
 		sc := sc
-		sp := &mc.Spec{Name: sc.name, New: func() mc.Instance { return newInst(sc) }, MaxDepth: depth, ExpandFailed: true}
+		scenarioDeadline = start.Add(budget * time.Duration(si+1) / time.Duration(len(scenarios)))
+		judgeRoot(sc, true)
+		sp := &mc.Spec{Name: sc.name, New: func() mc.Instance { return newInst(sc) }, MaxDepth: depth, ExpandFailed: true,
+			MaxStates: r.Pick(0, 250000)}
 		res := mc.Explore(r, sp)
+		if atomic.SwapInt32(&expired, 0) != 0 {
+			res.Exhaustive = false
+			res.Capped = "time budget share reached: histories met after that were replayed but not judged"
+		}
 		total.States += res.States
 		total.Transitions += res.Transitions
 		total.Executions += res.Executions
@@ -509,5 +821,8 @@ func main() {
 		"UTXO-level validity (fees, input signatures, double spends) is not part of the seam; amounts are chosen so that a wallet could have produced the transactions",
 	)
 	os.RemoveAll(scratch)
+	if stopProfile != nil {
+		stopProfile()
+	}
 	r.Finish(cov)
 }
